@@ -560,7 +560,12 @@ func hexs(xs ...string) string {
 }
 
 func reportOp(typ, buckets, out string, files []string) string {
-	return "report " + kit.HexS(typ) + " 0 " + kit.HexS(buckets) + " " + kit.HexS(out) + " " + hexs(files...)
+	return reportOpEvery(typ, 0, buckets, out, files)
+}
+
+// every > 0: the report command also writes intermediate reports (Close, then more Adds) at that interval
+func reportOpEvery(typ string, everyNs int64, buckets, out string, files []string) string {
+	return "report " + kit.HexS(typ) + " " + strconv.FormatInt(everyNs, 10) + " " + kit.HexS(buckets) + " " + kit.HexS(out) + " " + hexs(files...)
 }
 
 func encodeOp(to, out string, files []string) string {
@@ -568,7 +573,7 @@ func encodeOp(to, out string, files []string) string {
 }
 
 type pending struct {
-	kind  string // "json", "jsonb" (with buckets), "text", "hist", "hdrplot", "encode"
+	kind  string // "json", "jsonb" (with buckets), "jsonevery" (intermediate reports), "text", "hist", "histflag" (-buckets flag), "hdrplot", "encode"
 	out   string
 	cc    cliCase
 	base  bool
@@ -603,10 +608,14 @@ func (cr *cliRun) runSet(results []gen.ResultSpec, splits [][][]int, assignments
 			ops = append(ops, reportOp("json", "", out, files))
 		case "jsonb":
 			ops = append(ops, reportOp("json", histSpec, out, files))
+		case "jsonevery":
+			ops = append(ops, reportOpEvery("json", 1000, histSpec, out, files))
 		case "text":
 			ops = append(ops, reportOp("text", "", out, files))
 		case "hist":
 			ops = append(ops, reportOp("hist"+histSpec, "", out, files))
+		case "histflag":
+			ops = append(ops, reportOp("hist", histSpec, out, files))
 		case "hdrplot":
 			ops = append(ops, reportOp("hdrplot", "", out, files))
 		case "encode":
@@ -627,6 +636,9 @@ func (cr *cliRun) runSet(results []gen.ResultSpec, splits [][][]int, assignments
 		cc := cliCase{Results: results, Parts: [][]int{all}, Encs: []string{enc}, To: "json"}
 		add("jsonb", cc, []string{f}, true)
 		add("encode", cc, []string{f}, true)
+		if enc == "gob" && allTypes {
+			add("text", cc, []string{f}, true) // yardstick for the text reports over the splits
+		}
 	}
 	for si, parts := range splits {
 		for p, idx := range parts {
@@ -658,16 +670,28 @@ func (cr *cliRun) runSet(results []gen.ResultSpec, splits [][][]int, assignments
 			if allTypes && ai == 0 {
 				add("text", cc, files, false)
 				add("hist", cc, files, false)
+				add("histflag", cc, files, false)
 				add("hdrplot", cc, files, false)
+				add("jsonevery", cc, files, false)
 			}
 		}
 	}
-	outs, err := kit.RunVegeta(cr.c.Vegeta, ops)
+	outs, hungAt, err := gen.RunVegetaGuarded(cr.c.Vegeta, ops, 90*time.Second)
 	if err != nil {
 		s.Diverge("cli", "(vegeta-verif failure)", "", err.Error())
 		return
 	}
+	if hungAt >= 0 {
+		// the command never returned: the combined decoder never signalled the end (or kept returning records)
+		p := pend[hungAt]
+		s.Violate(kit.Violation{Kind: "cli_command_hung", What: "in-process " + p.kind + " command did not return within 90 s on well-formed split files (end of input never signalled?)",
+			Input: p.cc, Key: map[string]interface{}{"command": p.kind, "files": len(p.cc.Parts)}})
+		for len(outs) < len(pend) {
+			outs = append(outs, "not-run")
+		}
+	}
 	var histBase string
+	var textBase *textReport
 	latMin := ref.LatMin
 	if ref.hasZeroLatency {
 		// the unsplit gob file's report is the yardstick for the minimum
@@ -690,6 +714,9 @@ func (cr *cliRun) runSet(results []gen.ResultSpec, splits [][][]int, assignments
 		}
 		key := fmt.Sprintf("cli:%d:%s:%v:%v:%s", results[0].Seq, p.kind, p.cc.Parts, p.cc.Encs, p.cc.To)
 		s.Case(key, len(p.cc.Parts) >= 2)
+		if outs[i] == "not-run" {
+			continue
+		}
 		s.Count("cli:" + p.kind)
 		s.Count(fmt.Sprintf("cli:files=%d", len(p.cc.Parts)))
 		if outs[i] != "ok" {
@@ -706,9 +733,27 @@ func (cr *cliRun) runSet(results []gen.ResultSpec, splits [][][]int, assignments
 			s.Violate(kit.Violation{Kind: "cli_no_output", What: "command wrote no output file", Input: p.cc, Observed: err.Error()})
 			continue
 		}
+		if p.kind == "jsonevery" {
+			// several reports were written one after the other; the last one is the final report
+			docs := 0
+			dec := json.NewDecoder(bytes.NewReader(raw))
+			var last json.RawMessage
+			for {
+				var m json.RawMessage
+				if err := dec.Decode(&m); err != nil {
+					break
+				}
+				last = m
+				docs++
+			}
+			if docs > 1 {
+				s.Count("cli:jsonevery_with_intermediate_reports")
+			}
+			raw = last
+		}
 		switch p.kind {
-		case "json", "jsonb":
-			bad, obs := diffMetrics(ref, latMin, raw, p.kind == "jsonb")
+		case "json", "jsonb", "jsonevery":
+			bad, obs := diffMetrics(ref, latMin, raw, p.kind != "json")
 			if len(bad) > 0 {
 				kind := "report_split_metrics"
 				if p.base {
@@ -725,7 +770,16 @@ func (cr *cliRun) runSet(results []gen.ResultSpec, splits [][][]int, assignments
 			}
 		case "encode":
 			cr.checkEncoded(p, raw, rs, bySeq)
-		case "hist":
+		case "text":
+			tr := parseTextReport(raw)
+			if p.base {
+				textBase = &tr
+			}
+			if bad := tr.diff(ref, textBase); len(bad) > 0 {
+				s.Violate(kit.Violation{Kind: "report_split_text", What: "integer fields of the text report differ from the reference / from the text report over the unsplit file: " + strings.Join(bad, ","),
+					Input: p.cc, Expected: ref.String(), Observed: string(raw), Key: map[string]interface{}{"fields": strings.Join(bad, ",")}})
+			}
+		case "hist", "histflag":
 			rows := histCounts(raw)
 			if histBase == "" {
 				exp := make([]string, len(histBounds))
@@ -743,6 +797,88 @@ func (cr *cliRun) runSet(results []gen.ResultSpec, splits [][][]int, assignments
 			}
 		}
 	}
+}
+
+// the order-free, exactly determined parts of a text report
+type textReport struct {
+	requests, bytesIn, bytesOut string
+	durations                   string // total, attack, wait (Duration strings of exact integers)
+	latMin, latMax              string
+	codes                       string
+	errors                      []string
+	ok                          bool
+}
+
+func afterBracket(ln string) string {
+	if i := strings.Index(ln, "]"); i >= 0 {
+		return strings.TrimSpace(ln[i+1:])
+	}
+	return ""
+}
+
+func parseTextReport(raw []byte) textReport {
+	var t textReport
+	lines := strings.Split(string(raw), "\n")
+	inErr := false
+	seen := map[string]bool{}
+	for _, ln := range lines {
+		switch {
+		case inErr:
+			if e := strings.Join(strings.Fields(ln), " "); e != "" && !seen[e] {
+				seen[e] = true
+				t.errors = append(t.errors, e)
+			}
+		case strings.HasPrefix(ln, "Requests"):
+			t.requests = strings.Split(afterBracket(ln), ",")[0]
+			t.ok = true
+		case strings.HasPrefix(ln, "Duration"):
+			t.durations = afterBracket(ln)
+		case strings.HasPrefix(ln, "Latencies"):
+			f := strings.Split(afterBracket(ln), ", ")
+			t.latMin, t.latMax = f[0], f[len(f)-1]
+		case strings.HasPrefix(ln, "Bytes In"):
+			t.bytesIn = strings.Split(afterBracket(ln), ",")[0]
+		case strings.HasPrefix(ln, "Bytes Out"):
+			t.bytesOut = strings.Split(afterBracket(ln), ",")[0]
+		case strings.HasPrefix(ln, "Status Codes"):
+			t.codes = strings.Join(strings.Fields(afterBracket(ln)), " ")
+		case strings.HasPrefix(ln, "Error Set:"):
+			inErr = true
+		}
+	}
+	sort.Strings(t.errors)
+	return t
+}
+
+func (t textReport) diff(ref refMetrics, base *textReport) []string {
+	var bad []string
+	chk := func(name string, ok bool) {
+		if !ok {
+			bad = append(bad, name)
+		}
+	}
+	chk("parsable", t.ok)
+	chk("requests", t.requests == strconv.FormatUint(ref.Requests, 10))
+	chk("bytes_in.total", t.bytesIn == strconv.FormatUint(ref.BytesIn, 10))
+	chk("bytes_out.total", t.bytesOut == strconv.FormatUint(ref.BytesOut, 10))
+	var codes []string
+	for c := range ref.Codes {
+		codes = append(codes, c)
+	}
+	sort.Strings(codes)
+	for i, c := range codes {
+		codes[i] = c + ":" + strconv.Itoa(ref.Codes[c])
+	}
+	chk("status_codes", t.codes == strings.Join(codes, " "))
+	if base != nil {
+		chk("durations", t.durations == base.durations)
+		chk("latencies.max", t.latMax == base.latMax)
+		if !ref.hasZeroLatency {
+			chk("latencies.min", t.latMin == base.latMin)
+		}
+		chk("errors", fmt.Sprint(t.errors) == fmt.Sprint(base.errors))
+	}
+	return bad
 }
 
 func histCounts(raw []byte) string {
@@ -871,7 +1007,7 @@ func genResultSet(r *kit.Rng, base uint64, zeroLat bool) []gen.ResultSpec {
 
 func runC13(c *run.Ctx, s *kit.Summary) {
 	r := kit.NewRng(c.Seed)
-	s.Rule = "library: 0…7 scripted decoders of 0…20 items (records, failing calls), and 1…6 real gob/CSV/JSON decoders (DecoderFor or specific) over streams of 0…15 records; command: result sets of 1…60 records split into 1…6 non-empty files (contiguous cuts, one-record files plus one big file, arbitrary order-preserving assignment) × encoding assignments (all 3^k for small k, a sample otherwise) through the in-process report (json with/without buckets, text, hist, hdrplot) and encode (to gob/csv/json) commands; non-trivial = distinct case with ≥ 2 inputs"
+	s.Rule = "library: 0…7 scripted decoders of 0…20 items (records, failing calls), and 1…6 real gob/CSV/JSON decoders (DecoderFor or specific) over streams of 0…15 records; command: result sets of 1…60 records split into 1…6 non-empty files (contiguous cuts, one-record files plus one big file, arbitrary order-preserving assignment) × encoding assignments (all 3^k for small k, a sample otherwise) through the in-process report (json with/without buckets, json with intermediate reports every 1µs, text compared field-wise with the unsplit text report, hist by type and by -buckets flag, hdrplot) and encode (to gob/csv/json) commands, every command guarded against never returning; every run: rotations passing 2^8 and 2^16 attempts with 3/5/6/7 decoders, multi-file sets with a ≥ 64 KiB record and with a record of exactly 4096·k+1 / 65537 encoded bytes in a non-first position; non-trivial = distinct case with ≥ 2 inputs"
 	if c.Replay != "" {
 		replay(c, s)
 		return
@@ -896,6 +1032,29 @@ func runC13(c *run.Ctx, s *kit.Summary) {
 		if i < 2 {
 			s.Sample(map[string]interface{}{"op": "c13.rr", "case": lc, "impl": sc.Impl[len(sc.Impl)-1]})
 		}
+	}
+	// long rotations: one input far longer than the others (which run out early), so that every call makes
+	// several attempts and the rotation counter passes 2^8 and 2^16 attempts with 3, 5, 6, 7 decoders
+	// (a counter narrower than uint64, or any rotation rule that is not "all n residues in n attempts", ends early here)
+	for _, shape := range []struct{ n, long int }{{3, 300}, {5, 400}, {7, 300}, {6, 300}, {3, 70000}, {7, 70000}, {5, 23000}} {
+		scripts := make([][]int64, shape.n)
+		longAt := r.Pick(shape.n)
+		id := int64(0)
+		for i := range scripts {
+			l := r.Pick(4)
+			if i == longAt {
+				l = shape.long + r.Pick(7)
+			}
+			scripts[i] = make([]int64, l)
+			for j := range scripts[i] {
+				scripts[i][j] = id
+				id++
+			}
+		}
+		lc := libCase{Scripts: scripts, Calls: int(id) + shape.n + 2}
+		runLibScripted(lc, sc, s, true)
+		s.Case(fmt.Sprintf("lib-long:%d:%d:%d", shape.n, shape.long, longAt), true)
+		s.Count(fmt.Sprintf("lib.scripted:long_rotation>%d", map[bool]int{true: 65536, false: 256}[shape.long > 20000]))
 	}
 	sc.Diff(c.Driver, s)
 	// library, real decoders
@@ -945,6 +1104,55 @@ func runC13(c *run.Ctx, s *kit.Summary) {
 		// files: {0,2,4} and {1,3,5}: the large record is the second of the first file
 		cr.runSet(big, [][][]int{{{0, 2, 4}, {1, 3, 5}}, {{1, 3, 5}, {0, 2, 4}}}, func(k int) [][]string { return allAssignments(k) }, true)
 		s.Count("cli:set_with_large_record")
+	}
+	// dedicated sets, every run: a record in a non-first position whose own encoded length (JSON line, CSV
+	// record, gob message) is exactly 4096·k+1 resp. 65536+1 bytes including its terminator — the edge at
+	// which a buffered line reader hands back a full buffer followed by an empty remainder
+	for _, fit := range []struct {
+		enc    string
+		target int
+	}{{"json", 4097}, {"csv", 4097}, {"json", 8193}, {"gob", 4096}, {"csv", 65537}, {"json", 65537}} {
+		set := make([]gen.ResultSpec, 6)
+		for k := range set {
+			set[k] = gen.InterResult(r, base+uint64(k), -1)
+		}
+		own := func() int {
+			one := []vegeta.Result{set[2].ToResult()}
+			if fit.enc == "gob" {
+				return len(encodeAll("gob", append(one, one[0]))) - len(encodeAll("gob", one))
+			}
+			return len(encodeAll(fit.enc, one))
+		}
+		set[2].Attack = "a"
+		hit := false
+		for iter := 0; iter < 8 && !hit; iter++ {
+			l := own()
+			switch {
+			case l == fit.target:
+				hit = true
+			case l < fit.target:
+				set[2].Attack += strings.Repeat("a", fit.target-l)
+			case l-fit.target < len(set[2].Attack):
+				set[2].Attack = set[2].Attack[:len(set[2].Attack)-(l-fit.target)]
+			default:
+				iter = 8
+			}
+		}
+		base += 13
+		if !hit {
+			s.Count("cli:set_with_boundary_record(no fit)")
+			continue
+		}
+		cr.runSet(set, [][][]int{{{0, 2, 4}, {1, 3, 5}}, {{1, 3}, {5}, {0, 2, 4}}}, func(k int) [][]string {
+			out := [][]string{}
+			for _, a := range allAssignments(k) {
+				if a[0] == fit.enc || a[k-1] == fit.enc {
+					out = append(out, a)
+				}
+			}
+			return out
+		}, false)
+		s.Count(fmt.Sprintf("cli:set_with_boundary_record:%s=%d", fit.enc, fit.target))
 	}
 	for i := 0; i < sets; i++ {
 		zero := r.Chance(0.08)
